@@ -702,3 +702,86 @@ def equal(a, b) -> bool:  # noqa: F811  (full equality: flat first, then decisio
     if _has_ite(a) or _has_ite(b):
         return tree_eq(lift(a), lift(b))
     return False
+
+
+# --------------------------------------------------------------------------- sign domain over terms
+def sign_of(x, assume: dict, depth=0) -> str:
+    """Abstract sign of a term: 'Z' (=0), 'P' (>=0), 'N' (<=0), 'T' (unknown).
+    `assume` maps symbol names (or atom sortkeys) to a sign."""
+    if isinstance(x, tuple):
+        return "T"
+    if not isinstance(x, Rat):
+        return "T"
+    if x.is_zero():
+        return "Z"
+
+    def atom_sign(at: Atom) -> str:
+        k = at.sortkey()
+        if k in assume:
+            return assume[k]
+        if at.op == "exp" or at.op in BOOL_OPS or at.op in ("abs", "sqrt"):
+            return "P"
+        if at.op == "ite":
+            return _join(sign_of(at.args[1], assume, depth + 1), sign_of(at.args[2], assume, depth + 1))
+        if at.op == "clamp":
+            v, lo, hi = at.args
+            sv = sign_of(v, assume, depth + 1)
+            slo = sign_of(lo, assume, depth + 1) if isinstance(lo, Rat) and lo.as_atom() is None or (isinstance(lo, Rat) and lo.as_const() is not None) else None
+            shi = sign_of(hi, assume, depth + 1) if isinstance(hi, Rat) and hi.as_const() is not None else None
+            if slo in ("P", "Z"):
+                return "P"
+            if shi in ("N", "Z"):
+                return "N"
+            return sv
+        if at.op in ("max",):
+            ss = [sign_of(a, assume, depth + 1) for a in at.args]
+            return "P" if any(s in ("P",) for s in ss) or all(s in ("P", "Z") for s in ss) else "T"
+        if at.op in ("m.sum", "m.nansum", "m.mean", "f.sum", "f.nansum", "f.mean", "m.view", "m.unsqueeze", "m.reshape", "index"):
+            return sign_of(at.args[0], assume, depth + 1) if at.args and isinstance(at.args[0], Rat) else "T"
+        return "T"
+
+    def poly_sign(p) -> str:
+        acc = "Z"
+        for m, c in p.items():
+            s = "P" if c > 0 else "N"
+            for at, e in m:
+                a = atom_sign(at)
+                if a == "T":
+                    if e % 2 == 0:
+                        a = "P"
+                    else:
+                        return "T"
+                if a == "Z":
+                    s = "Z"
+                    break
+                if a == "N" and e % 2 != 0:
+                    s = "P" if s == "N" else "N"
+            acc = _add_sign(acc, s)
+            if acc == "T":
+                return "T"
+        return acc
+
+    n, d = poly_sign(x.n), poly_sign(x.d)
+    if n == "Z":
+        return "Z"
+    if n == "T" or d in ("T", "Z"):
+        return "T"
+    return n if d == "P" else ("N" if n == "P" else "P")
+
+
+def _join(a, b):
+    if a == b:
+        return a
+    if a == "Z":
+        return b
+    if b == "Z":
+        return a
+    return "T"
+
+
+def _add_sign(a, b):
+    if a == "Z":
+        return b
+    if b == "Z":
+        return a
+    return a if a == b else "T"
